@@ -6,6 +6,7 @@ package gen
 import (
 	"fmt"
 	"math/rand"
+	"sort"
 	"strings"
 
 	"github.com/RoaringBitmap/roaring"
@@ -278,10 +279,19 @@ func JumboBatch(r *rand.Rand, n int, prefix string, tagDV ...bool) ([]*model.MDo
 		{Name: "tag", DV: tdv, Locs: false, Vocab: []string{"x", "y"}, Unique: true, StoreP: 0},
 	}}
 	docs := make([]*model.MDoc, n)
+	// "sparse": a doc-value field present only in [0,sa) and [sb,n): with n > 2200 the
+	// 1024-document doc-value chunk in between stays empty (an empty chunk after a populated one)
+	sa, sb := 200+r.Intn(800), n
+	if n > 2200 {
+		sb = 2060 + r.Intn(n-2100)
+	}
 	for i := range docs {
 		id := fmt.Sprintf("%s-%d", prefix, i)
 		d := &model.MDoc{}
 		d.Fields = append(d.Fields, &model.MField{N: "_id", Terms: []*model.MTerm{{T: []byte(id), F: 1}}, St: r.Intn(3) == 0, V: []byte(id)})
+		if (i < sa || i >= sb) && r.Intn(4) > 0 {
+			d.Fields = append(d.Fields, &model.MField{N: "sparse", DV: true, Terms: []*model.MTerm{{T: []byte(fmt.Sprintf("s%d", i%7)), F: 1}}})
+		}
 		body := &model.MField{N: "body", DV: true, St: r.Intn(10) < 3}
 		if body.St {
 			body.V = []byte(strings.Repeat("s", r.Intn(6)))
@@ -314,4 +324,94 @@ func JumboBatch(r *rand.Rand, n int, prefix string, tagDV ...bool) ([]*model.MDo
 		docs[i] = d
 	}
 	return docs, sch
+}
+
+// AddExactTerms gives every term of spec exactly spec[term] distinct documents
+// (chosen at random) by adding one extra instance of field to those documents.
+// Used to hit cardinalities at and around the chunking constants (1023, 1024,
+// 1025, 2048 …), which random vocabularies practically never produce.
+func AddExactTerms(r *rand.Rand, docs []*model.MDoc, field string, spec map[string]int) {
+	per := map[int][]string{}
+	names := make([]string, 0, len(spec))
+	for t := range spec {
+		names = append(names, t)
+	}
+	sort.Strings(names)
+	for _, t := range names {
+		k := spec[t]
+		if k > len(docs) {
+			k = len(docs)
+		}
+		for _, d := range r.Perm(len(docs))[:k] {
+			per[d] = append(per[d], t)
+		}
+	}
+	for d := range docs { // document order: deterministic
+		ts := per[d]
+		if len(ts) == 0 {
+			continue
+		}
+		f := &model.MField{N: field}
+		for _, t := range ts {
+			f.Terms = append(f.Terms, &model.MTerm{T: []byte(t), F: 1})
+		}
+		docs[d].Fields = append(docs[d].Fields, f)
+	}
+}
+
+// ExactSpec returns the boundary cardinalities that fit into n documents.
+func ExactSpec(n int) map[string]int {
+	spec := map[string]int{}
+	for _, k := range []int{1023, 1024, 1025, 2047, 2048, 2049, 3072, 4096} {
+		if k <= n {
+			spec[fmt.Sprintf("e%d", k)] = k
+		}
+	}
+	return spec
+}
+
+// SplitExact splits target cardinalities over inputs of the given sizes so that
+// a merge WITHOUT deletions yields terms of exactly 1024 / 2048 documents.
+func SplitExact(r *rand.Rand, sizes []int) []map[string]int {
+	out := make([]map[string]int, len(sizes))
+	for i := range out {
+		out[i] = map[string]int{}
+	}
+	total := 0
+	for _, s := range sizes {
+		total += s
+	}
+	for _, target := range []int{1024, 2048} {
+		if total < target {
+			continue
+		}
+		left := target
+		for i, s := range sizes {
+			k := left
+			if i < len(sizes)-1 {
+				rest := 0
+				for _, s2 := range sizes[i+1:] {
+					rest += s2
+				}
+				lo := left - rest
+				if lo < 0 {
+					lo = 0
+				}
+				hi := left
+				if hi > s {
+					hi = s
+				}
+				k = lo
+				if hi > lo {
+					k = lo + r.Intn(hi-lo+1)
+				}
+			}
+			if k > s {
+				k = s
+			}
+			out[i][fmt.Sprintf("m%d", target)] = k
+			left -= k
+		}
+	}
+	return out
 }
